@@ -18,8 +18,8 @@ _INTERIOR_OPS = [op for op in mutate.OPS if op not in ("append-junk",)]
 
 
 @st.composite
-def unit(draw: t.Any, side: str, nprep: int, idx: int) -> t.Any:
-    kind = draw(st.sampled_from(["valid", "valid", "valid-forms", "valid-big", "valid-any", "interior", "interior", "interior", "paged", "interior-random", "nonseq-outer", "empty-outer"]))
+def unit(draw: t.Any, side: str, nprep: int, idx: int, only_valid: bool = False) -> t.Any:
+    kind = draw(st.sampled_from(["valid", "valid", "valid-forms"])) if only_valid else draw(st.sampled_from(["valid", "valid", "valid-forms", "valid-big", "valid-any", "unsolicited", "appendix", "interior", "interior", "interior", "paged", "interior-random", "nonseq-outer", "empty-outer"]))
     rid = draw(st.integers(0, nprep - 1)) if nprep else None
     if side == "server":
         base = gens.memo("c06.server", lambda: gens.message(kinds=["searchRequest", "extendedReq"], filt=gens.filters(max_leaves=4), ids=st.just(0))).map(
@@ -39,6 +39,25 @@ def unit(draw: t.Any, side: str, nprep: int, idx: int) -> t.Any:
         else:
             m = {"kind": "searchResEntry", "id": 0, "controls": [], "name": "cn=big", "attributes": [("a", [b"\x00" * size])]}
         return ("valid", m, rid)
+    if kind == "appendix":
+        # something appended INSIDE the envelope after the last component (outer length recomputed): an honest unknown
+        # trailing component (the message is still valid), one whose declared length overruns the envelope, or a header cut short
+        mm = dict(draw(base))
+        if draw(st.booleans()):
+            mm["controls"] = [("generic", "1.2.3.4", False, None)]
+        tag = draw(st.sampled_from([0x85, 0xA5, 0x8B, 0x04, 0x30, 0xDF]))
+        form = draw(st.sampled_from(["honest", "overrun", "overrun", "tag-only", "len-cut", "overrun-long"]))
+        return ("appendix", mm, rid, tag, form, draw(st.integers(1, 200)))
+    if kind == "unsolicited":
+        # message id 0: an unsolicited notification (ExtendedResponse, any name or none) for a client, a request
+        # numbered 0 for a server - well-formed, complete units
+        if side == "client":
+            nm = draw(st.sampled_from([None, "1.2.3", "1.3.6.1.4.1.1466.20036", "1.3.6.1.4.1.1466.20037", ""]))
+            m = {"kind": "extendedResp", "id": 0, "controls": [], "result": {"code": draw(st.sampled_from([0, 2, 52, 4096])), "matched": "", "diag": "", "referral": None},
+                 "name": nm, "value": draw(st.sampled_from([None, b"", b"v"]))}
+        else:
+            m = dict(draw(base), id=0)
+        return ("valid-any", m, None)
     if kind == "valid-any":
         # a well-formed message of ANY kind with any id (0, unknown, in progress): wrong for the conversation perhaps,
         # but a complete unit - it is returned or reported like every other one
@@ -69,7 +88,10 @@ def case(draw: t.Any) -> t.Dict[str, t.Any]:
     side = draw(st.sampled_from(["client", "server"]))
     prep = [("search",)] * draw(st.integers(1, 3)) if side == "client" else draw(st.sampled_from([[], [("search",)], [("extended",)]]))
     n = draw(st.integers(1, 6))
-    units = [draw(unit(side, len(prep) if side == "client" else 0, i)) for i in range(n)]
+    # half of the streams carry exactly ONE unit that is not plainly valid: whatever happens to it is not masked by
+    # an error that another unit causes later in the stream
+    fault_at = draw(st.one_of(st.none(), st.integers(0, n - 1)))
+    units = [draw(unit(side, len(prep) if side == "client" else 0, i, only_valid=fault_at is not None and i != fault_at)) for i in range(n)]
     if draw(st.integers(0, 39)) == 0:
         # a long run of complete units in one stream (limits on "messages per call" must not lose or hold back any)
         rep = draw(st.sampled_from([100, 513, 1025, 2049]))
@@ -124,6 +146,14 @@ def unit_bytes(u: t.Any, ids: t.List[int]) -> t.Tuple[bytes, str, bool]:
         return data, "valid", False
     if k == "valid-any":
         return data, f"valid-any:{m['kind']}", True
+    if k == "appendix":
+        tag, form, n = u[3], u[4], u[5]
+        ident = bytes([tag]) if tag != 0xDF else b"\xdf\x21"
+        app = {"honest": ident + b"\x02ab", "overrun": ident + bytes([2 + n % 120]) + b"ab", "tag-only": ident, "len-cut": ident + b"\x82\x00",
+               "overrun-long": ident + b"\x84\x00\x00\x01\x00" + b"ab"}[form]
+        _c, _k2, _n2, hl, _l, tag_oct, _lo = ber.read_header(data, 0)
+        body = data[hl:] + app
+        return tag_oct + ber.length_octets(len(body)) + body, f"appendix:{form}", form != "honest"
     if k == "valid-forms":
         return rfc4511.encode(m, rfc4511.Knobs(u[3], kinds=("length-wide",))), "valid-forms", False
     if k == "paged":
